@@ -24,6 +24,9 @@ type c18Input struct {
 	EmptyName bool
 }
 
+// c18ThirdUse: the Parser value has been used twice before (second-use-of-a-parser explores both).
+var c18ThirdUse = false
+
 // c18ConsumerParses: the consumer parses c18OtherInput with the callback parser after every record it receives.
 var c18ConsumerParses = false
 var c18OtherInput = func() string {
@@ -221,6 +224,9 @@ func c18RunModelAfter(x *Exec, first *c18Input, in c18Input, policy int) c18Obs 
 	s.Go("producer", func() {
 		if first != nil {
 			p.ParseStream(first.reader())
+			if c18ThirdUse {
+				p.ParseStream(first.reader())
+			}
 		}
 		if in.isFile() {
 			p.ParseFile(in.File)
@@ -232,9 +238,15 @@ func c18RunModelAfter(x *Exec, first *c18Input, in c18Input, policy int) c18Obs 
 	var kept []*shared.ParserNode
 	s.Go("consumer", func() {
 		if first != nil {
-			for done := false; !done; {
-				i, _, _ := s.Select(selCase{Ch: p.Nodes}, selCase{Ch: p.Errors}, selCase{Ch: p.Done})
-				done = i == 2
+			uses := 1
+			if c18ThirdUse {
+				uses = 2
+			}
+			for u := 0; u < uses; u++ {
+				for done := false; !done; {
+					i, _, _ := s.Select(selCase{Ch: p.Nodes}, selCase{Ch: p.Errors}, selCase{Ch: p.Done})
+					done = i == 2
+				}
 			}
 		}
 		// the documented receive loop (parser/example_test.go, TestParseWg), with the
@@ -473,7 +485,8 @@ func checkC18(w *Worker) {
 	w.Explore("second-use-of-a-parser", ExploreOpts{ShardDepth: 3}, func(x *Exec) {
 		f := firsts[x.Choose(len(firsts), "event:first-input")]
 		first = &f
-		defer func() { first = nil }()
+		c18ThirdUse = x.Choose(2, "event:used-twice-before") == 1
+		defer func() { first, c18ThirdUse = nil, false }()
 		one(x)
 	})
 	// model validation: every (input, consumer) whose schedules all terminate is run free on real channels;
